@@ -19,7 +19,7 @@ use zcash_client_backend::{
         locking::{LockOwner, LockRequest, LockedInputPolicy, OutputLockStore, unlock_proposal_inputs},
         testing::single_output_change_strategy,
         wallet::{
-            ConfirmationsPolicy, propose_send_max_transfer, propose_transfer,
+            ConfirmationsPolicy, SpendingKeys, create_proposed_transactions, propose_send_max_transfer, propose_transfer,
             input_selection::{GreedyInputSelector, NonEmptyBTreeSet, SpendPolicy},
         },
     },
@@ -27,6 +27,7 @@ use zcash_client_backend::{
     proposal::Proposal,
     wallet::{Note, OutputRef},
 };
+use zcash_client_backend::{data_api::WalletRead, wallet::OvkPolicy};
 use zcash_client_sqlite::ReceivedNoteId;
 use zcash_primitives::transaction::TxId;
 use zcash_protocol::{PoolType, ShieldedPool, consensus::BlockHeight, value::Zatoshis};
@@ -283,6 +284,71 @@ impl<'a> D<'a> {
         self.r.aborted |= c == "panic";
     }
 
+    /// create (build, "prove", sign, store) the transaction of a proposal made earlier -- possibly stale by now
+    fn create(&mut self) {
+        if self.kept.is_empty() {
+            self.propose();
+        }
+        if self.kept.is_empty() {
+            return;
+        }
+        let i = self.r.rng.gen_range(0..self.kept.len());
+        let (p, _) = self.kept.remove(i);
+        if p.steps().len() != 1 {
+            return;
+        }
+        let desc = self.describe(&p);
+        let target_abs = u32::from(BlockHeight::from(p.min_target_height()));
+        let anchor_abs = p.steps().first().anchor_height().map(u32::from).unwrap_or(self.r.chain.base);
+        // expiry: the builder's default, as soon as possible, a little later, never
+        let (expiry, expreq): (Option<BlockHeight>, i64) = match self.r.rng.gen_range(0..10) {
+            0..=3 => (None, -1),
+            4..=6 => (Some(BlockHeight::from(target_abs)), self.r.w.rel(target_abs)),
+            7..=8 => (Some(BlockHeight::from(target_abs + 2)), self.r.w.rel(target_abs + 2)),
+            _ => (Some(BlockHeight::from(0)), -100),
+        };
+        let usk = self.r.w.st.test_account().unwrap().usk().clone();
+        let net = self.r.w.net;
+        let st = &mut self.r.w.st;
+        let res: Result<Result<Vec<TxId>, String>, String> = guarded(move || {
+            create_proposed_transactions::<_, _, Infallible, _, Infallible, _>(
+                st.wallet_mut(),
+                &net,
+                &sapling::prover::mock::MockSpendProver,
+                &sapling::prover::mock::MockOutputProver,
+                &SpendingKeys::from_unified_spending_key(usk),
+                OvkPolicy::Sender,
+                &p,
+                expiry,
+            )
+            .map(|ids| ids.into_iter().collect())
+            .map_err(|e| format!("{e:?}"))
+        });
+        let (c, e) = res_class(&res);
+        let inputs: Vec<u32> = desc["steps"][0]["inputs"].as_array().unwrap().iter().map(|i| i[0].as_i64().unwrap().max(0) as u32).collect();
+        let mut txs = vec![];
+        if let Ok(Ok(ids)) = &res {
+            for id in ids {
+                let tx = self.r.w.st.wallet().get_transaction(*id).unwrap().expect("harness: created transaction not retrievable");
+                let cr = self.r.chain.register_created(&tx, &inputs, anchor_abs);
+                txs.push(json!({
+                    "t": cr.abs.uid,
+                    "exp": if cr.expiry == 0 { -100 } else { self.r.w.rel(cr.expiry) },
+                    "outs": cr.abs.outs.iter().map(|o| json!({"n": o.note, "pool": o.pool.code(), "v": o.value, "acct": o.acct, "int": o.internal})).collect::<Vec<_>>(),
+                    "spends": cr.abs.spends,
+                    "nf_missing": cr.nf_missing, "nf_extra": cr.nf_extra,
+                }));
+                self.r.created.push(cr);
+            }
+        }
+        let post = self.post();
+        self.r.out.emit(&json!({
+            "a": "create", "res": c, "err": e, "target": desc["target"], "expreq": expreq, "fee": desc["steps"][0]["fee"],
+            "inputs": desc["steps"][0]["inputs"], "txs": txs, "post": post,
+        }));
+        self.r.aborted |= c == "panic";
+    }
+
     fn unlock_kept(&mut self) {
         if self.kept.is_empty() {
             return;
@@ -343,9 +409,16 @@ impl<'a> D<'a> {
             if x < 22 || top == self.r.chain.base {
                 // receipts dominate: proposals need funds
                 let mut taken = vec![];
+                let mut remined = if !self.r.orphaned.is_empty() && self.r.rng.gen_bool(0.3) { vec![self.r.orphaned.remove(0)] } else { vec![] };
+                // a transaction the wallet created gets mined (never together with a fabricated spend of the same notes)
+                if self.r.rng.gen_bool(0.6) {
+                    if let Some(c) = self.r.pick_created() {
+                        taken.extend(c.abs.spends.iter().copied());
+                        remined.push((c.abs.clone(), c.ctx.clone()));
+                    }
+                }
                 let ntx = if self.r.rng.gen_bool(0.8) { 1 } else { 2 };
                 let txs: Vec<TxReq> = (0..ntx).map(|_| self.r.random_tx(&mut taken)).collect();
-                let remined = if !self.r.orphaned.is_empty() && self.r.rng.gen_bool(0.3) { vec![self.r.orphaned.remove(0)] } else { vec![] };
                 self.r.block(&txs, &remined, false);
             } else if x < 30 {
                 let k = *[1u32, 2, 3, 9, 10, 11, 40].choose(&mut self.r.rng).unwrap();
@@ -375,7 +448,7 @@ impl<'a> D<'a> {
                 if let Some(to) = self.r.trunc(req, fork) {
                     last_from = last_from.min(to + 1);
                 }
-            } else if x < 88 {
+            } else if x < 83 {
                 // most proposals are made by a wallet that is caught up (else little is spendable)
                 if self.r.rng.gen_bool(0.65) {
                     self.r.tip(top);
@@ -386,7 +459,9 @@ impl<'a> D<'a> {
                     }
                 }
                 if self.r.rng.gen_bool(0.25) { self.propose_max() } else { self.propose() }
-            } else if x < 93 {
+            } else if x < 91 {
+                self.create();
+            } else if x < 94 {
                 self.unlock_kept();
             } else if x < 96 {
                 self.clear();
@@ -408,6 +483,9 @@ fn main() {
     for hist in 0..histories {
         let r = Run::new(&mut out, seed.wrapping_mul(1_000_003).wrapping_add(hist as u64), ironwood, json!(hist));
         let mut d = D { r, kept: vec![] };
+        if hist % 2 == 1 {
+            d.r.value_scale = 4;
+        }
         d.history(ops);
     }
     let n = out.finish();
